@@ -26,7 +26,7 @@ def parse_logs(paths):
 
 def main():
     trials = parse_logs(sys.argv[1:])
-    for d in sorted(glob.glob(SRC + "/C??/[ab]")):
+    for d in sorted(glob.glob(SRC + "/C??/[a-d]")):
         pid, v = d.split("/")[-2], d.split("/")[-1]
         key = "%s-%s" % (pid, v)
         vf = os.path.join(d, "verify.json")
@@ -64,6 +64,9 @@ def main():
         }
         if key in EXTRA:
             meta["note"] = EXTRA[key]
+        # the check was extended after reading the agent's report and before the first trial: the check as it
+        # stood would (probably) have missed the change
+        meta["strengthened_before_first_trial"] = key in ("C11-a", "C11-b", "C15-a", "C15-b", "C16-b", "C26-b", "C20-b", "C09-a")
         json.dump(meta, open(os.path.join(out, "meta.json"), "w"), indent=1)
         print(key, ver.get("verdict"), [(r["check"], r["caught"]) for r in runs])
 
